@@ -122,7 +122,9 @@ func runC12(o *opts) (*summary, error) {
 
 	// non-ASCII runes that Unicode classes as decimal digits or numbers (Arabic-Indic, Devanagari, fullwidth, mathematical
 	// bold, superscript, fraction) and runes whose last UTF-8 byte is an ASCII-digit look-alike: all are "other characters"
-	for _, r := range []rune{0x0660, 0x0663, 0x0669, 0x06f5, 0x0966, 0x096f, 0xff10, 0xff11, 0xff19, 0x1d7ce, 0x1d7d7, 0x00b2, 0x00bd, 0x2460, 0x0130, 0x0131, 0x0139, 0x3007, 0x4e00} {
+	for _, r := range []rune{0x0660, 0x0663, 0x0669, 0x06f5, 0x0966, 0x096f, 0xff10, 0xff11, 0xff19, 0x1d7ce, 0x1d7d7, 0x00b2, 0x00bd, 0x2460, 0x0130, 0x0131, 0x0139, 0x3007, 0x4e00,
+		// (the first and last code points of each UTF-8 length)
+		0x0080, 0x0081, 0x00ff, 0x07ff, 0x0800, 0xffff, 0x10000, 0x10ffff, 0x007f} {
 		u := []byte(string(r))
 		w.put(bcdEnc(u), "enc-unicode", fmt.Sprintf("eu:%x", r))
 		w.put(bcdEnc(append(append([]byte("12"), u...), '3')), "enc-unicode", fmt.Sprintf("eu3:%x", r))
